@@ -2,6 +2,8 @@ CONSTANTS
   T = 2
   MaxKeys = 3
   Servers = {"A"}
+  MaxAge = 2
+  StampOnRevoke = TRUE
   ReloadOnCommit = TRUE
 INIT Init
 NEXT Next
